@@ -84,7 +84,8 @@ def case_s(draw):
         t = ['call', 'REC', [t, draw(cell_leaf), draw(range_leaf)]]
     # a listener that leaves during the first delivery it sees (subscribed with once, or unsubscribing itself), placed ahead of the others of its kind
     transient = dict((k, draw(st.sampled_from(['none', 'none', 'none', 'once', 'selfoff']))) for k in KINDS)
-    return {'tree': t, 'listeners': draw(listeners), 'transient': transient}
+    # the host has variables whose names happen to be spelled like the cell labels of the formula (x1 = ..., q4 = ...): such a spelling is a cell reference all the same
+    return {'tree': t, 'listeners': draw(listeners), 'transient': transient, 'shadow': draw(st.integers(0, 3)) == 0}
 
 
 VARS = {'v_a': 41, 'v_b': 'bee', 'v_list': [3, 4], 'v_zero': 0, 'v_err': Err('#NUM!')}
@@ -216,6 +217,11 @@ def check(case):
     for k, v in VARS.items():
         if k != 'v_err':
             P.set_variable(k, v)
+    if case.get('shadow'):
+        for n in gf.walk(tree):
+            if n[0] == 'cell':
+                for name in (n[1], n[1].upper(), n[1].replace('$', '')):
+                    P.set_variable(name, 'a variable named %s' % name)
     log = []
     kept = []
     rec_calls = []
@@ -224,7 +230,12 @@ def check(case):
         rec_calls.append(list(args))
         return 9000 + len(rec_calls) - 1
     P.set_function('REC', rec)
-    P.set_function('ID', lambda x: x)
+    class Ident(list):
+        # a host function that is a callable container (a call recorder): empty, hence falsy, until it has been called
+        def __call__(self, x):
+            self.append(1)
+            return x
+    P.set_function('ID', Ident())
     from ..env import errors as _errors
 
     def eraise(*a):
